@@ -74,22 +74,30 @@
        along every direction and for every partial derivative softmax_j(p) - [j = c] of p |-> ln(sum_k exp p_k) - p_c
        (C06_cross_entropy_gradient_is_directional_derivative, C06_cross_entropy_gradient_is_partial_derivative), one output:
        sigmoid(x) - c strictly above the coded cut-off -200 < y x (C06_cross_entropy_one_output_gradient_is_derivative),
-       probability-vector labels: softmax(p) - t (C06_cross_entropy_vector_labels_gradient_is_derivative).
+       probability-vector labels: softmax(p) - t (C06_cross_entropy_vector_labels_gradient_is_derivative).  Likewise HuberLoss over
+       R with sqrt: the coded gradient is the directional derivative of the coded value at every prediction with |p - l| <> delta
+       (C06_huber_gradient_is_directional_derivative; same axioms).
+       (h) NegativeLogLikelihood as coded (C06ExtModel.nll_eval / nll_evald: per-batch sum(log(max(p, 1e-100))), critical-region
+       merge, the thread split of evalDerivative, coefficients 1/p or 0, /n, sign), axiom-free over Q and for EVERY function in the
+       role of the logarithm: value = -(mean of log max(p(x), minProb)) from both entry points, derivative = -(mean of
+       weightedParameterDerivative(x, 1/p(x))), for every batching, thread count and arrival order
+       (C06_negative_log_likelihood_is_mean, C06_negative_log_likelihood_batching_invariant).  Not proved: that this vector is the
+       derivative of the value w.r.t. the parameters in the analytic sense (needs log over R and the model contract).
    PARTIAL (named *_partial): kept from round 1 for reference; superseded by the theorems of the second round
      (C06_huber_gradient_partial by C06_huber_outer_gradient*, C06_error_grad_is_param_grad_partial by *_generic).
    NOT PROVED: the one-output cross-entropy below the cut-off y x < -200 returns the asymptote -y x whose slope is -y, while the
      gradient code returns sigmoid(x) - c; the two differ by less than exp(-200) (invisible in double), so the derivative theorem is
-     stated above the cut-off only.  Analytic derivatives of Huber / absolute / hinge-type losses are stated as exact algebraic
-     expansions with explicit remainders (first and second round), not with is_derive.
+     stated above the cut-off only.  Derivatives of the hinge-type, epsilon-insensitive and squared losses are stated as exact
+     algebraic expansions with explicit remainders (first and second round), not with is_derive; AbsoluteLoss has no derivative call.
    ONLY COMPARED / MONITORED by tools/c06.py (not proved): finite-difference gradient monitor on every loss and on models with
      non-linear activations, floating-point rounding (the float instantiations are compared at 1e-12; NegativeAUC exactly when both
-     class sizes are powers of two, else at 1e-14), NegativeAUC on scores equal to -DBL_MAX (the model represents the initial
-     predictionPrev = -DBL_MAX by `None`) and the three-argument eval with an explicit column, NegativeLogLikelihood,
+     class sizes are powers of two, else at 4e-14), NegativeAUC on scores equal to -DBL_MAX (the model represents the initial
+     predictionPrev = -DBL_MAX by `None`) and the three-argument eval with an explicit column,
      KernelTargetAlignment, CrossValidationError / LooError (C20's monitors), the OpenMP runtime actually delivering one of the
      modelled schedules. *)
 From Coq Require Import List Arith ZArith QArith Qabs Permutation Reals Sorted Lia.
 From Coquelicot Require Coquelicot.
-From SharkV Require Import C06LossProofs C06GenProofs C06FieldProofs C06RealProofs C06ExtModel C06AucProofs C06SeqProofs C06CeRealProofs.
+From SharkV Require Import C06LossProofs C06GenProofs C06FieldProofs C06RealProofs C06ExtModel C06AucProofs C06SeqProofs C06CeRealProofs C06NllProofs C06HuberRealProofs.
 
 From SharkV Require Import ListAux C03Model C06Model C06Proofs C06Aux.
 Import ListNotations.
@@ -713,6 +721,44 @@ Proof.
 Qed.
 Print Assumptions C06_sequence_loss_ignored_prefix.
 
+(* ---- NegativeLogLikelihood as coded, for every function lg in the role of the logarithm ---- *)
+(* eval: minus the mean of lg(max(p(x), minProb)) over the elements, for every batching and arrival order of the per-batch sums;
+   evalDerivative: the same value and minus the mean of weightedParameterDerivative(x, 1/p(x)) (coefficient 0 below minProb), for
+   every thread count >= 1, batching and arrival order of the thread results; hypothesis: weightedParameterDerivative is a sum over
+   the batch (C04 contract; holds for the linear model of the tie, C06_nll_linear_model_instance) *)
+Theorem C06_negative_log_likelihood_is_mean :
+  forall (lg : Q -> Q) (minProb : Q) (peval : vec -> Q) (pwpd : list (vec * vec) -> vec),
+    (forall xg, veq (pwpd xg) (vsum (map (fun p => pwpd [p]) xg))) ->
+    forall threads (d : @data vec) arrived_eval arrived, (1 <= threads)%nat ->
+      Permutation arrived_eval (map (nll_bq_eval lg minProb peval) d) ->
+      Permutation arrived (partials (nll_bq lg minProb peval pwpd) (thread_ranges threads (length d)) d) ->
+      nll_eval_arrived arrived_eval d == - (qsum (map (nll_ll lg minProb peval) (elems d)) / Qn (nelems d)) /\
+      nth 0 (nll_evald_arrived arrived d) 0 == - (qsum (map (nll_ll lg minProb peval) (elems d)) / Qn (nelems d)) /\
+      forall j, nth (S j) (nll_evald_arrived arrived d) 0
+                == - (qsum (map (fun x => nth j (pwpd [(x, [nll_coeff minProb peval x])]) 0) (elems d)) / Qn (nelems d)).
+Proof.
+  exact (fun lg minProb peval pwpd Hs threads d ae a HT He Ha =>
+           conj (nll_value lg minProb peval d ae He) (nll_evald_mean lg minProb peval pwpd Hs threads d a HT Ha)).
+Qed.
+Print Assumptions C06_negative_log_likelihood_is_mean.
+
+Theorem C06_negative_log_likelihood_batching_invariant :
+  forall (lg : Q -> Q) (minProb : Q) (peval : vec -> Q) (pwpd : list (vec * vec) -> vec),
+    (forall xg, veq (pwpd xg) (vsum (map (fun p => pwpd [p]) xg))) ->
+    forall t1 t2 (d1 d2 : @data vec), (1 <= t1)%nat -> (1 <= t2)%nat -> elems d1 = elems d2 ->
+      nth 0 (nll_evald lg minProb peval pwpd t1 d1) 0 == nll_eval lg minProb peval d1 /\
+      nll_eval lg minProb peval d1 == nll_eval lg minProb peval d2 /\
+      veq (nll_evald lg minProb peval pwpd t1 d1) (nll_evald lg minProb peval pwpd t2 d2).
+Proof.
+  exact (fun lg minProb peval pwpd Hs t1 t2 d1 d2 H1 H2 He =>
+           conj (nll_paths lg minProb peval pwpd Hs t1 d1 H1) (nll_batching_invariant lg minProb peval pwpd Hs t1 t2 d1 d2 H1 H2 He)).
+Qed.
+Print Assumptions C06_negative_log_likelihood_batching_invariant.
+
+Theorem C06_nll_linear_model_instance : forall xg, veq (lin_wpd xg) (vsum (map (fun p => lin_wpd [p]) xg)).
+Proof. exact nll_linear_model_instance. Qed.
+Print Assumptions C06_nll_linear_model_instance.
+
 (* ---- cross-entropy: the coded gradient is the derivative of the coded value in the analytic sense (over R, exp / ln) ---- *)
 (* The polymorphic cross-entropy code of C06Model.v read over the reals (Rce_eval := ce_eval R 0 1 Rplus ... exp ln ...).
    is_derive is Coquelicot's derivative predicate, equivalent to derivable_pt_lim of the standard library. *)
@@ -761,11 +807,20 @@ Proof.
   exact (fun tl p Ht => conj (fun v s0 Hne Hv => Rcev_directional_derivative tl p v s0 Hne Hv Ht)
                              (fun j Hj => Rcev_partial_derivative tl p j Ht Hj)).
 Qed.
+
+(* HuberLoss over R with sqrt: along every direction, at every prediction whose distance from the label is not exactly delta, the
+   coded gradient is the derivative of the coded value (inside the ball: p - l; outside: delta/|p - l| (p - l)) *)
+Theorem C06_huber_gradient_is_directional_derivative :
+  forall delta l p v, length p = length l -> length v = length l ->
+    Rnormsq (Rsub p l) <> delta * delta ->
+    is_derive (fun t => Rhuber_s delta l (Raxpy t v p)) 0 (Rdot (Rhuber_g delta l p) v).
+Proof. exact Rhuber_directional_derivative. Qed.
 End RealDerivatives.
 Print Assumptions C06_cross_entropy_gradient_is_directional_derivative.
 Print Assumptions C06_cross_entropy_gradient_is_partial_derivative.
 Print Assumptions C06_cross_entropy_one_output_gradient_is_derivative.
 Print Assumptions C06_cross_entropy_vector_labels_gradient_is_derivative.
+Print Assumptions C06_huber_gradient_is_directional_derivative.
 
 (* ---- the hypotheses are satisfiable ---- *)
 Example ex_ranges : thread_ranges 3 7 = [(0, 3); (3, 5); (5, 7)]%nat.
